@@ -54,6 +54,12 @@ def call_prim(ip, name, args, kwargs):
             return ZBool(z3.Function("PartApplies", V.Val, V.Val, V.B)(part, node))
         from .sym import LList
         return LList(None, z3.Function(name, V.Val, V.Val, V.VS)(part, node))
+    if name == "as_obj":
+        x, cls = args[0], args[1].v
+        if isinstance(x, Z):
+            n = len(ip.instance_attrs(cls))
+            return Z(x.t, cls)
+        return x
     if name == "all_lists":
         return _all_lists(ip, args[0])
     if name == "IsJson":
@@ -134,15 +140,75 @@ def _forall(ip, n, fn):
     body = merged_bool(ip, lambda sub: sub.call(fn, [ZInt(j)], {}), ("forall", value_key(fn), tid(j)))
     # the known quantified facts are also instantiated at the other index terms the goal reads sequences at
     # (an element of a concatenation a ++ b at position j is b's element at j - len(a))
+    goal_seqs = read_sequences(body)
     for t in index_terms(body, j):
-        insts += ip.path.instances(t)
-    return ZBool(z3.Implies(z3.And([j >= 0, j < nn] + insts), body))
+        # at derived index terms only the facts that speak about a sequence the goal reads are instantiated
+        insts += [f for f in ip.path.instances(t) if read_sequences(f) & goal_seqs]
+    insts += concat_nth_lemmas(body)
+    # (forall j. A and B) is proved as (forall j. A) and (forall j. B): smaller queries, and the failing part is named
+    from .engine import _conjuncts
+    hyp = z3.And([j >= 0, j < nn] + insts)
+    parts = _conjuncts(z3.simplify(body)) if z3.is_bool(body) else [body]
+    return ZBool(z3.And([z3.Implies(hyp, c) for c in parts]) if len(parts) > 1 else z3.Implies(hyp, body))
+
+
+def read_sequences(t0):
+    """ids of the sequence terms that t0 reads elements of (pieces of concatenations included)."""
+    from .comp import tid
+    out, visited, stack = set(), set(), [t0]
+    while stack:
+        t = stack.pop()
+        if t.get_id() in visited or not z3.is_app(t):
+            continue
+        visited.add(t.get_id())
+        if t.decl().kind() == z3.Z3_OP_SEQ_NTH or t.decl().name().startswith("seq.nth"):
+            segs = [t.arg(0)]
+            while segs:
+                sg = segs.pop()
+                out.add(tid(sg))
+                if z3.is_app(sg) and sg.decl().kind() == z3.Z3_OP_SEQ_CONCAT:
+                    segs.extend(sg.children())
+        stack.extend(t.children())
+    return out
+
+
+def concat_nth_lemmas(body, limit=8):
+    """Instances of the sequence-theory fact  0 <= t - off < len(c)  ->  (.. ++ c ++ ..)[t] = c[t - off]  for the element
+    reads of concatenations in the goal (valid in the theory of sequences; stated explicitly because z3 does not always
+    find the case split on its own)."""
+    out, visited, stack = [], set(), [body]
+    while stack and len(out) < limit * 3:
+        t = stack.pop()
+        if t.get_id() in visited or not z3.is_app(t):
+            continue
+        visited.add(t.get_id())
+        if (t.decl().kind() == z3.Z3_OP_SEQ_NTH or t.decl().name().startswith("seq.nth")) and z3.is_app(t.arg(0)) \
+                and t.arg(0).decl().kind() == z3.Z3_OP_SEQ_CONCAT:
+            s, i = t.arg(0), t.arg(1)
+            off = z3.IntVal(0)
+            for c in s.children():
+                out.append(z3.Implies(z3.And(i - off >= 0, i - off < z3.Length(c)), s[i] == c[i - off]))
+                off = off + z3.Length(c)
+        stack.extend(t.children())
+    return out
 
 
 def index_terms(body, j, limit=12):
     out, seen, stack = [], set(), [body]
+    def has_nth(t):
+        st = [t]
+        while st:
+            x = st.pop()
+            if z3.is_app(x):
+                if x.decl().kind() == z3.Z3_OP_SEQ_NTH or x.decl().name().startswith("seq.nth"):
+                    return True
+                st.extend(x.children())
+        return False
+
     def add(t):
         t = z3.simplify(t)
+        if has_nth(t):
+            return            # an element used as an index (xs[ys[j]]): not an instantiation point
         if t.get_id() not in seen and not t.eq(j) and len(out) < limit:
             seen.add(t.get_id())
             out.append(t)
